@@ -271,6 +271,16 @@ var basicIntRanges = map[string][2]string{
 // heapTyping: every cell of an integer element heap holds a value of its Go type (needed inside quantified specs,
 // where reads are not individually typed).
 func (st *State) heapTyping(name, h string) {
+	if strings.HasPrefix(name, "M!") {
+		// the nil map (reference 0) has no entries and size 0 in every state; sizes are never negative
+		if strings.HasSuffix(name, "!dom") {
+			st.addFact(fmt.Sprintf("(= (select %s 0) ((as const (Array Int Bool)) false))", h))
+		} else if strings.HasSuffix(name, "!size") {
+			st.addFact(fmt.Sprintf("(= (select %s 0) 0)", h))
+			st.addFact(fmt.Sprintf("(forall ((g_a Int)) (! (and (<= 0 (select %s g_a)) (< (select %s g_a) %s)) :pattern ((select %s g_a))))", h, h, sNum(pow2(maxLenBits)), h))
+		}
+		return
+	}
 	if heapHoldsRefs[name] {
 		// every reference stored in the heap is nil or allocated (no dangling references in Go)
 		lim := st.alloc
